@@ -226,6 +226,8 @@ class World:
         self.update_burst = 0
         self.predict_faults = {}
         self.acq_faults = {}
+        self.passive = False
+        self.passive_calls = 0
         self.es_predict_calls = 0
         self.acq_fault_now = False
         for f in scn.get("faults", []):
@@ -366,6 +368,16 @@ class World:
         return "other"
 
     def _target_call(self, x):
+        if self.passive:
+            # unmonitored continuation (second optimize() on the same object): plain target, bounded number of calls
+            self.passive_calls += 1
+            if self.passive_calls > 400:
+                raise SimLimit("passive call cap")
+            x = np.array(x, dtype=float, copy=True).reshape(-1)
+            yobs, sd = self.noise(x, self.landscape(x))
+            if self.specified:
+                return (float(yobs), float(sd if sd is not None else 1.0))
+            return float(yobs)
         self.n_calls += 1
         k = self.n_calls
         x = np.array(x, dtype=float, copy=True).reshape(-1)
@@ -509,6 +521,9 @@ class World:
 
     def _cons_call(self, X):
         X = np.atleast_2d(np.asarray(X, dtype=float))
+        if self.passive:
+            outp = np.array([self.violation_fn(X[i]) for i in range(X.shape[0])], dtype=float)
+            return (outp > 0) if (self.scn.get("cons") or {}).get("ret", "float") == "bool" else outp
         self.cons_calls += 1
         self.cons_rows += X.shape[0]
         out = np.empty(X.shape[0])
